@@ -1,5 +1,7 @@
 //! C07 (built-in + derived), C08, C09, C10 over generated type definitions.
 
+mod refs;
+
 use g_derive_rt::{PairEntry, RootEntry};
 use vcore::engine::{CaseResult, Fail, Kind, Stats, Sub};
 use vcore::Gen;
@@ -83,6 +85,10 @@ fn subs() -> Vec<Sub> {
                  kind: Kind::Enumerate { quick: np, thorough: np, f: presence07, complete_quick: true, complete_thorough: true } });
     v.push(Sub { prop: "C08", name: "wire-format", rule: "value of a generated type: to_vec == reference encoder driven by the schema (documented format); second spelling (renamed, reordered, n<->b) of the same schema encodes the same tape-drawn value to identical bytes; non-trivial = an absent/gap null or a tag occurs; distinct by bytes",
                  kind: Kind::Random { quick: 1_500_000, thorough: 6_000_000, tape: 768, f: c08_random } });
+    for p in ["C08", "C07"] {
+        v.push(Sub { prop: p, name: "reference-fields", rule: "encode-only definitions (struct, tuple struct, generic struct, enum variant; array, map and tagged) whose fields are &T, &mut T, &&T, &&mut T, &mut &T, &&&T references to the values, x every presence combination of 4 optional fields x values: bytes and CborLen identical to the twin definition that owns the values (an absent optional behind a reference is absent)",
+                     kind: Kind::Random { quick: 200_000, thorough: 2_000_000, tape: 64, f: refs::reference_fields } });
+    }
     v.push(Sub { prop: "C08", name: "presence", rule: "every generated schema x every presence combination of root-level optional fields (exhaustive up to 6)",
                  kind: Kind::Enumerate { quick: np, thorough: np, f: presence08, complete_quick: true, complete_thorough: true } });
     v.push(Sub { prop: "C09", name: "roundtrip", rule: "value of a generated type: decode(own encoding + junk) == value with skipped fields defaulted, exact consumption, borrowing fields point into the input; the same through a re-framed encoding (indefinite bodies/collections, wider heads); negative edits of the item tree (wrong/removed tag at struct/enum/variant/field level, mandatory field removed, unused variant index) must fail with the documented error class",
